@@ -366,10 +366,13 @@ Proof. vm_compute. repeat split. Qed.
    binary64 format on real numbers (the specification of Flocq's Binary.Bdiv / binary_normalize);
    [b64_value m e] is the real number m * 2^e.  (1) static_cast<double>(n) for every n >= 0;
    (2) a / b for all positive integers below 2^64; (3) the two in sequence as formatSI / formatIEC
-   use them; (4) every divisor of the regenerated ladders is itself a binary64 number.  This is the
-   only statement of C17 about real numbers: it depends on the axioms of Coq's Reals (printed below,
-   named in the trusted base).  Not covered: printf's %.<p>f (fixed_scaled) -- that glibc prints the
-   exact binary value correctly rounded to nearest even is tested by the correspondence run only. *)
+   use them; (4) every divisor of the regenerated ladders is itself a binary64 number.  This is one
+   of the FIVE statements of C17 about real numbers -- with C17_g12_spec, C17_ieee754_bit_level,
+   C17_printf_fixed_spec and C17_thresholds_are_binary64 --: they depend on the axioms of Coq's Reals
+   (printed after each, named in the trusted base); every other theorem is closed under the global
+   context.  printf's %.<p>f (fixed_scaled) has its specification in C17_printf_fixed_spec; that glibc
+   prints the exact binary value correctly rounded to nearest even is tested by the correspondence
+   run only. *)
 Theorem C17_binary64_semantics :
   (forall n, 0 <= n -> IZR (to_double n) = rnd64 (IZR n)) /\
   (forall a b m e, 0 < a < 2 ^ 64 -> 0 < b < 2 ^ 64 -> div_double a b = (m, e) ->
@@ -511,3 +514,28 @@ Example ex_si : formatSI 12345 = [x31; x32; x2e; x33; x6b] /\ formatIEC 2048 = [
                 f9_range = [99949999999999992; 99949999999999993; 99949999999999994; 99949999999999995;
                             99949999999999996; 99949999999999997; 99949999999999998; 99949999999999999].
 Proof. vm_compute. repeat split. Qed.
+
+(* The bounds of the OnDouble rungs ARE binary64 numbers (the side condition of the third conjunct of
+   C17_ieee754_bit_level, which links the model's test [to_double n * den <? num] to operator< on
+   doubles only for a finite double of value num/den).  [threshold_exact] (C17_Flocq) checks one rung:
+   num, den > 0, den = 2^k, num = m * 2^j exactly with j = max 0 (log2 num - 52), m < 2^53,
+   -1074 <= j - k <= 971.  (1) it holds for every rung of both REGENERATED ladders (by computation, on
+   every check: an edited bound that is not a double fails here); (2) hence for every OnDouble rung of
+   either ladder there is a finite Flocq binary64 X with B2R X = num/den exactly, and the model's test
+   is Bltb (double of n) X -- `n < X` on doubles -- for every 0 <= n < 2^64.  Uses the Reals axioms. *)
+Theorem C17_thresholds_are_binary64 :
+  (forallb threshold_exact si_ladder = true /\ forallb threshold_exact iec_ladder = true) /\
+  (forall num den f, In (OnDouble num den, f) (si_ladder ++ iec_ladder) ->
+     0 < den /\
+     exists y : binary64, BinarySingleNaN.is_finite y = true /\ BinarySingleNaN.B2R y = (IZR num / IZR den)%R /\
+       forall n, 0 <= n < 2 ^ 64 -> BinarySingleNaN.Bltb (b64_of_Z n) y = (to_double n * den <? num)).
+Proof. exact thresholds_are_binary64. Qed.
+Print Assumptions C17_thresholds_are_binary64.
+
+(* non-vacuity: the ladders do contain OnDouble rungs with a proper fraction as bound
+   (Ki*9.995 = 5626684784446013 / 2^39) and one with more than 53 bits (99950000000000000 = m * 2^4) *)
+Example ex_thresholds :
+  In (OnDouble 5626684784446013 549755813888, RFix 2 1024 [x4b; x69]) (si_ladder ++ iec_ladder) /\
+  In (OnDouble 99950000000000000 1, RFix 1 1000000000000000 [x50]) (si_ladder ++ iec_ladder) /\
+  threshold_exact (OnDouble 99950000000000001 1, RInt) = false.
+Proof. vm_compute. split; [auto 40|]. split; [auto 40|reflexivity]. Qed.
